@@ -367,6 +367,21 @@ def errors_rule(rep, prog, cfg):
                 rep.check(rounded, "C16.no-trunc-cast", "%s/%s" % (cfg, norm(prog.bodies[b.root].name)), b.loc(st["span"]),
                           "a float is cast to an integer without rounding on the response conversion path: the "
                           "cast truncates (and saturates), the decoded value differs from what the server sent")
+    # narrowing integer casts (`as u8` of a wider parsed number) wrap instead of reporting a value outside the field's domain
+    WIDTH = {"u8": 8, "i8": 8, "u16": 16, "i16": 16, "u32": 32, "i32": 32, "u64": 64, "i64": 64, "usize": 64, "isize": 64, "u128": 128, "i128": 128}
+    for b in scope:
+        if b.raw.get("derived"):
+            continue
+        for bb, i, st in b.stmts():
+            if st["k"] == "assign" and st["rv"]["k"] == "cast" and st["rv"]["cast"] == "IntToInt":
+                l = op_local(st["rv"]["op"])
+                src_ty = b.local_ty(l) if l is not None else None
+                dst_ty = st["rv"].get("ty")
+                if src_ty in WIDTH and dst_ty in WIDTH and (WIDTH[dst_ty] < WIDTH[src_ty] or (WIDTH[dst_ty] == WIDTH[src_ty] and src_ty[0] != dst_ty[0])) \
+                        and not prog.exp_chain(b.crate, st.get("span")):
+                    rep.fail("C16.no-trunc-cast", "%s/%s %s as %s" % (cfg, norm(prog.bodies[b.root].name), src_ty, dst_ty), b.loc(st["span"]),
+                             "a %s is cast to %s on the response conversion path: a value outside the narrower type wraps silently instead of "
+                             "producing an error" % (src_ty, dst_ty))
     # positive control: the detector sees Result::ok on a parse result somewhere in the crate
     pc = 0
     for b in prog.bodies.values():
